@@ -239,6 +239,10 @@ def gen_case(r, cid, size, force_pair=None, special=None):
     if special == "empty_source":          # no valid source pixel at all
         src["lons"] = [r.choice(BAD_LON) for _ in range(S)]
         src["tags"] = ["all_invalid"]
+    elif special == "mask_invalid":        # invalid source coordinates AND a data mask: the mask must be compacted like the sources
+        for k in range(S):
+            if r.random() < 0.35:
+                src["lons"][k] = r.choice(BAD_LON)
     elif special == "one_valid_source":
         keep = r.randrange(S)
         src["lons"] = [x if k == keep else 1e30 for k, x in enumerate(src["lons"])]
@@ -282,8 +286,8 @@ def gen_case(r, cid, size, force_pair=None, special=None):
     # ---- mask
     mask, mask_chunks, mk = None, None, "nomask"
     u = r.random()
-    if u < 0.4:
-        p = r.choice([0.15, 0.5, 0.9, 1.0, 0.0])
+    if u < 0.4 or special == "mask_invalid":
+        p = r.choice([0.15, 0.5, 0.9, 1.0, 0.0]) if special != "mask_invalid" else 0.5
         mask = [1 if r.random() < p else 0 for _ in range(S)]
         mask_chunks = chunk_tuple(r, s_shape, 40)
         mk = "mask%.2f" % p
@@ -301,6 +305,8 @@ def gen_case(r, cid, size, force_pair=None, special=None):
     if special == "one_valid_source":
         radius, rk = 1e8, "huge"
         case["radius"] = radius
+    if special == "mask_invalid":
+        case["radius"] = radius = spacing * 3.0
     meta = {"region": region, "pair": pair + ("/samegrid" if identical else "") + ("/" + special if special else ""), "radius": rk, "dtype": dt, "layout": lay, "mask": mk,
             "future_mask": future_mask, "nan_data": nan_data, "S": S, "T": T, "s_shape": s_shape, "t_shape": [th, tw],
             "lead": [n for _, n in lead], "trail": [n for _, n in trail], "s_dims": list(s_dims)}
@@ -525,6 +531,8 @@ def run(ctx):
         size = sizes[cid % 4] if cid % 11 else (400, 300)
         if cid % 40 == 1:
             c, m = gen_case(r, cid, (30, 24), force_pair="swath->area", special="empty_source")
+        elif cid % 8 == 3:
+            c, m = gen_case(r, cid, sizes[cid % 3], force_pair=r.choice(["swath->area", "swath->swath", "swath1d->area"]), special="mask_invalid")
         elif cid % 40 == 2:
             c, m = gen_case(r, cid, (30, 24), force_pair=r.choice(["swath->area", "swath->swath"]), special="one_valid_source")
         else:
